@@ -166,6 +166,11 @@ func (s *OperationProcessor) processOperations(
 
 func (s *OperationProcessor) filterOps(ops []*operation.AnchoredOperation, opts document.ResolutionOptions,
 	uniqueSuffx string) ([]*operation.AnchoredOperation, error) {
+	if opts.VersionID != "" && opts.VersionTime != "" {
+		// one of them would be ignored
+		return nil, errors.New("cannot resolve at a version id and a version time at once")
+	}
+
 	if opts.VersionID != "" {
 		s.logger.Debug("Filtering operations for unique suffix by version", logfields.WithSuffix(uniqueSuffx),
 			logfields.WithVersion(opts.VersionID))
